@@ -11,6 +11,7 @@ import re
 import shutil
 import subprocess
 import sys
+import threading
 import time
 from pathlib import Path
 
@@ -37,22 +38,29 @@ class MachineryError(Exception):
 _workdir = None
 
 
+_worklock = threading.Lock()          # some checks run a model in a background thread
+
+
 def workdir():
     global _workdir
-    if _workdir is None:
-        WORKROOT.mkdir(exist_ok=True)
-        _workdir = WORKROOT / f"run-{os.getpid()}-{int(time.time() * 1000) % 10**8}"
-        _workdir.mkdir(parents=True)
-        atexit.register(lambda: shutil.rmtree(_workdir, ignore_errors=True))
-    return _workdir
+    with _worklock:
+        if _workdir is None:
+            WORKROOT.mkdir(exist_ok=True)
+            d = WORKROOT / f"run-{os.getpid()}-{int(time.time() * 1000) % 10**8}"
+            d.mkdir(parents=True)
+            atexit.register(lambda: shutil.rmtree(d, ignore_errors=True))
+            _workdir = d
+        return _workdir
 
 
 _counter = [0]
 
 
 def fresh(name):
-    _counter[0] += 1
-    d = workdir() / f"{name}-{_counter[0]}"
+    wd = workdir()
+    with _worklock:
+        _counter[0] += 1
+        d = wd / f"{name}-{_counter[0]}"
     d.mkdir()
     return d
 
